@@ -268,7 +268,7 @@ int sim_epoll_ctl(int epfd, int op, int fd, struct epoll_event *ev) {
 	if (!k || !k->open) { if (g_hooks) g_hooks->hygiene(k ? "use-after-close" : "foreign-descriptor", "epoll_ctl on a closed or unknown descriptor"); errno = EBADF; return -1; }
 	if (op == EPOLL_CTL_ADD) {
 		if (k->in_epoll) { errno = EEXIST; return -1; }
-		if (!g_kernel.epoll_add_errs.empty()) { int er = g_kernel.epoll_add_errs.front(); g_kernel.epoll_add_errs.pop_front(); if (er) { errno = er; return -1; } }
+		if (!g_kernel.epoll_add_errs.empty() && k->kind == FD_TIMER) { /* only timer registrations are made to fail (DESIGN.md 4.4) */ int er = g_kernel.epoll_add_errs.front(); g_kernel.epoll_add_errs.pop_front(); if (er) { errno = er; return -1; } }
 		k->in_epoll = true; k->ep_events = ev->events; k->ep_data = ev->data.u64; k->ep_owner = epfd; k->ep_pending = false;
 		if (kernel_fd_ready_in(*k) || kernel_fd_ready_out(*k)) g_kernel.mark_pending(*k);
 		return 0;
